@@ -44,7 +44,9 @@ def main(argv):
             continue
         for k in range(n):
             rng = random.Random(f"{name}/{seed0}/{k}")
-            cfg = fams[name].gen_cfg(rng)
+            # every third configuration is the family's maximum-coverage one, when it defines `gen_cfg_wide`
+            gen = getattr(fams[name], "gen_cfg_wide", None) if k % 3 == 2 else None
+            cfg = (gen or fams[name].gen_cfg)(rng)
             cfg2 = json.loads(json.dumps(cfg))
             if cfg2 != cfg:
                 print(f"{name}: cfg is not JSON-stable")
